@@ -201,6 +201,12 @@ def client_id_class_pick(r, model, cls):
         return 0
     if cls == "large":
         return r.choice([2147483647, 65536, model.last_id + 1000])
+    if cls == "alias":
+        # never issued, but congruent to an id in progress modulo 2**8 / 2**16 / 2**32 (5+ content octets, negatives)
+        if not model.out:
+            return None
+        base = pick_sorted(r, model.out)
+        return base + r.choice([2 ** 32, 2 ** 40, -(2 ** 32), 2 ** 16, 2 ** 8, -(2 ** 8), -(2 ** 16), 2 ** 64])
     raise ValueError(cls)
 
 
